@@ -10,30 +10,30 @@ package aggsender
 //@ spec fn thresholdOf(N int, pct int) real = ite(real(pct) / 100.0 > real(N - 1) / real(N), real(N - 1) / real(N), real(pct) / 100.0)
 //@ spec fn pastThreshold(S int, N int, pct int, b int) bool = real(elapsedIn(S, N, b)) / real(N) >= thresholdOf(N, pct)
 
-//@ func (c *ConfigEpochNotifierPerBlock) Validate
+//@ func (c *ConfigEpochNotifierPerBlock) Validate (c)
 //@   props C18
 //@   requires c != nil
 //@   ensures[valid] result == nil ==> c.NumBlockPerEpoch >= 1 && c.EpochNotificationPercentage <= 99
 
-//@ func (e *EpochNotifierPerBlock) epochNumber
+//@ func (e *EpochNotifierPerBlock) epochNumber (e, currentBlock)
 //@   props C18
 //@   requires e != nil && e.Config.NumBlockPerEpoch >= 1
 //@   requires currentBlock - e.Config.StartingEpochBlock < 18446744073709551614
 //@   ensures[epoch] result == epochOf(e.Config.StartingEpochBlock, e.Config.NumBlockPerEpoch, currentBlock)
 
-//@ func (e *EpochNotifierPerBlock) startingBlockEpoch
+//@ func (e *EpochNotifierPerBlock) startingBlockEpoch (e, epoch)
 //@   props C18
 //@   requires e != nil && e.Config.NumBlockPerEpoch >= 1
 //@   requires epoch >= 1 && e.Config.StartingEpochBlock + (epoch - 1) * e.Config.NumBlockPerEpoch < 18446744073709551616
 //@   ensures[start] result == e.Config.StartingEpochBlock + (epoch - 1) * e.Config.NumBlockPerEpoch
 
-//@ func (e *EpochNotifierPerBlock) percentEpoch
+//@ func (e *EpochNotifierPerBlock) percentEpoch (e, currentBlock)
 //@   props C18
 //@   requires e != nil && e.Config.NumBlockPerEpoch >= 1
 //@   requires currentBlock >= e.Config.StartingEpochBlock && currentBlock - e.Config.StartingEpochBlock < 18446744073709551614
 //@   ensures[percent] result == real(elapsedIn(e.Config.StartingEpochBlock, e.Config.NumBlockPerEpoch, currentBlock)) / real(e.Config.NumBlockPerEpoch)
 
-//@ func (e *EpochNotifierPerBlock) isNotificationRequired
+//@ func (e *EpochNotifierPerBlock) isNotificationRequired (e, currentBlock, lastEpochNotified)
 //@   props C18
 //@   requires e != nil && e.Config.NumBlockPerEpoch >= 1 && e.Config.EpochNotificationPercentage <= 99
 //@   requires currentBlock >= e.Config.StartingEpochBlock && currentBlock - e.Config.StartingEpochBlock < 18446744073709551614
@@ -49,7 +49,7 @@ package aggsender
 //@ spec fn stepLastPast(S int, N int, pct int, last int, lastPast int, b int) int = ite(observedBlk(S, last, b) && pastThreshold(S, N, pct, b), epochOf(S, N, b), lastPast)
 //@ spec fn notifierInv(S int, N int, last int, waiting int, lastPast int) bool = last >= S && lastPast >= 0 && waiting == lastPast + 1 && lastPast <= epochOf(S, N, last)
 
-//@ func (e *EpochNotifierPerBlock) step
+//@ func (e *EpochNotifierPerBlock) step (e, status, newBlock)
 //@   props C18
 //@   requires e != nil && e.logger != nil && e.Config.NumBlockPerEpoch >= 1 && e.Config.EpochNotificationPercentage <= 99
 //@   requires newBlock.BlockNumber >= e.Config.StartingEpochBlock ==> e.Config.StartingEpochBlock + epochOf(e.Config.StartingEpochBlock, e.Config.NumBlockPerEpoch, newBlock.BlockNumber) * e.Config.NumBlockPerEpoch < 18446744073709551614
@@ -115,7 +115,7 @@ package aggsender
 //@ interface github.com/agglayer/aggkit/aggsender.RateLimiter.Call (self, msg, allowToSleep)
 //@   modifies nothing
 
-//@ func (a *AggSender) saveCertificateToStorage
+//@ func (a *AggSender) saveCertificateToStorage (a, ctx, cert, maxRetries)
 //@   props C02 C13
 //@   requires a != nil && a.storage != nil && a.log != nil && cert.Header != nil
 //@   modifies savedCount, lastSaved
@@ -124,7 +124,7 @@ package aggsender
 //@   loop 0 invariant err != nil ==> savedCount == old(savedCount) && lastSaved == old(lastSaved)
 //@   loop 0 invariant err == nil ==> savedCount == old(savedCount) + 1 && lastSaved == *cert.Header
 
-//@ func (a *AggSender) sendCertificate
+//@ func (a *AggSender) sendCertificate (a, ctx)
 //@   props C02 C10 C13
 //@   calledonlyby sendCertificates
 //@   requires a != nil && a.storage != nil && a.log != nil && a.flow != nil && a.aggLayerClient != nil && a.epochNotifier != nil && a.rateLimiter != nil
@@ -150,7 +150,7 @@ package aggsender
 //@   ensures statusChecks == old(statusChecks) + 1 && pendingAtLastCheck == result.ExistPendingCerts && newInErrorAtLastCheck == result.ExistNewInErrorCert
 //@ interface github.com/agglayer/aggkit/aggsender/types.EpochNotifier.Subscribe (self, id)
 //@   modifies nothing
-//@ func (a *AggSender) sendCertificates
+//@ func (a *AggSender) sendCertificates (a, ctx, returnAfterNIterations)
 //@   props C02
 //@   requires a != nil && a.storage != nil && a.log != nil && a.flow != nil && a.aggLayerClient != nil && a.epochNotifier != nil && a.rateLimiter != nil && a.certStatusChecker != nil && a.status != nil
 //@   modifies heap
